@@ -1,4 +1,5 @@
 SPECIFICATION Spec
 INVARIANT VocabSound
+INVARIANT IntVocabSound
 INVARIANT ClassSemantics
 CHECK_DEADLOCK FALSE
